@@ -266,57 +266,56 @@ theorem replaceLt_noLt (s : Str) (h : hasLt s = false) : replaceLt s = s := by
     have : hasLt cs = false := by simpa [hasLt] using h.2
     simp [replaceLt, hc, ih this]
 
-/-! ### property theorems: round trip -/
+/-! ### before the repair (regression): `replace('<', …)` *before* `{:?}`, nothing for errors -/
 
-/-- **full statement** (what the property asks): whatever string a data site prints, the
-client's JavaScript reads back exactly that string -/
-def C12_roundtrip_full : Prop :=
+/-- the full statement about the old data site -/
+def C12_old_roundtrip_full : Prop :=
   ∀ (p g : Nat → Bool) (s : Str), Scalar s →
-    jsDecodeStringLiteral (emitLit p g .asyncData s) = some s
+    jsDecodeStringLiteral (emitLitOld p g .asyncData s) = some s
 
 /-- F-C12-1: `"\u{0}1"` is printed as `"\01"`, which sloppy-mode JavaScript reads as U+0001
 (legacy octal escape) — for every table that prints `1` as itself, as rustc's does -/
 theorem C12_nul_digit_witness (p g : Nat → Bool) (hp : p 49 = true) (hg : g 49 = false) :
-    emitLit p g .asyncData [0, 49] = [34, 92, 48, 49, 34] ∧
+    emitLitOld p g .asyncData [0, 49] = [34, 92, 48, 49, 34] ∧
     jsDecodeStringLiteral [34, 92, 48, 49, 34] = some [1] := by
   constructor
-  · simp [emitLit, siteReplacesLt, replaceLt, rustDebugStr, debugBody, escapeDebugChar, hp, hg]
+  · simp [emitLitOld, siteReplacesLt, replaceLt, rustDebugStr, debugBody, escapeDebugChar, hp, hg]
   · decide
 
 /-- F-C12-3: a `<` in the payload comes back as the six characters `<`: the
 replacement text's backslash is itself escaped by `{:?}` -/
 theorem C12_lt_witness :
-    emitLit asciiPrintable noExtend .asyncData [60] = [34, 92, 92, 117, 48, 48, 51, 99, 34] ∧
+    emitLitOld asciiPrintable noExtend .asyncData [60] = [34, 92, 92, 117, 48, 48, 51, 99, 34] ∧
     jsDecodeStringLiteral [34, 92, 92, 117, 48, 48, 51, 99, 34] = some [92, 117, 48, 48, 51, 99] := by
   decide
 
-theorem C12_roundtrip_full_false : ¬ C12_roundtrip_full := by
+theorem C12_old_roundtrip_full_false : ¬ C12_old_roundtrip_full := by
   intro h
   have := h asciiPrintable noExtend [0, 49] (by intro c hc; simp at hc; omega)
   revert this; decide
 
 /-- what the client reads for a data value, in general: the `<`-replaced string -/
-theorem C12_data_reads_replaced (p g : Nat → Bool) (site : Site) (hsite : siteReplacesLt site = true)
+theorem C12_old_data_reads_replaced (p g : Nat → Bool) (site : Site) (hsite : siteReplacesLt site = true)
     (s : Str) (hs : Scalar s) (hn : nulOct s = false) :
-    jsDecodeStringLiteral (emitLit p g site s) = some (replaceLt s) := by
-  simp only [emitLit, hsite, if_true]
+    jsDecodeStringLiteral (emitLitOld p g site s) = some (replaceLt s) := by
+  simp only [emitLitOld, hsite, if_true]
   exact jsDecode_rustDebugStr p g _ (scalar_replaceLt s hs) (nulOct_replaceLt s hn)
 
-/-- **partial**: for every payload with no NUL directly followed by an octal digit `0`–`7`
+/-- the old code's partial theorem: for every payload with no NUL directly followed by an octal digit `0`–`7`
 and no `<`, at every site and for every instantiation of the Unicode tables, the
 client reads back exactly the string the server wrote.  (The two hypotheses are the
 negations of the known-finding classes `nul-octal` and `lt-rewritten`.) -/
-theorem C12_roundtrip_partial (p g : Nat → Bool) (site : Site) (s : Str) (hs : Scalar s)
+theorem C12_old_roundtrip_partial (p g : Nat → Bool) (site : Site) (s : Str) (hs : Scalar s)
     (hn : nulOct s = false) (hl : hasLt s = false) :
-    jsDecodeStringLiteral (emitLit p g site s) = some s := by
-  simp only [emitLit, replaceLt_noLt s hl, ite_self]
+    jsDecodeStringLiteral (emitLitOld p g site s) = some s := by
+  simp only [emitLitOld, replaceLt_noLt s hl, ite_self]
   exact jsDecode_rustDebugStr p g s hs hn
 
 /-- error messages (no `<` replacement at those sites) only need the NUL hypothesis -/
-theorem C12_error_roundtrip_partial (p g : Nat → Bool) (site : Site)
+theorem C12_old_error_roundtrip_partial (p g : Nat → Bool) (site : Site)
     (hsite : siteReplacesLt site = false) (s : Str) (hs : Scalar s) (hn : nulOct s = false) :
-    jsDecodeStringLiteral (emitLit p g site s) = some s := by
-  simp only [emitLit, hsite]
+    jsDecodeStringLiteral (emitLitOld p g site s) = some s := by
+  simp only [emitLitOld, hsite]
   exact jsDecode_rustDebugStr p g s hs hn
 
 /-- the boundary is exact on the JavaScript side: `\08` and `\09` are NUL followed by the digit -/
@@ -329,8 +328,196 @@ example : Scalar [0, 56, 60, 8232, 128512] ∧ nulOct [0, 56, 60, 8232, 128512] 
   · intro c hc; simp at hc; omega
   · decide
 example : nulOct [97, 0] = false ∧ hasLt [97, 0] = false := by decide
-example : jsDecodeStringLiteral (emitLit asciiPrintable noExtend .asyncData [0, 56, 34, 92, 8232, 769])
+example : jsDecodeStringLiteral (emitLitOld asciiPrintable noExtend .asyncData [0, 56, 34, 92, 8232, 769])
     = some [0, 56, 34, 92, 8232, 769] := by decide
+
+
+/-! ### the repaired emission: `js_string` = `{:?}` then a scanner over the formatted text -/
+
+/-- what `js_string` prints for one character (`jsFix` applied to `escape_debug_ext`) -/
+def jsEscChar (p g : Nat → Bool) (c : Nat) : Str :=
+  if c = 0 then kNulEsc
+  else if c = 9 then [92, 116]
+  else if c = 13 then [92, 114]
+  else if c = 10 then [92, 110]
+  else if c = 92 then [92, 92]
+  else if c = 34 then [92, 34]
+  else if g c then unicodeEsc c
+  else if p c then (if c = 60 then kLtEsc else [c])
+  else unicodeEsc c
+
+def jsBody (p g : Nat → Bool) : Str → Str
+  | [] => []
+  | c :: cs => jsEscChar p g c ++ jsBody p g cs
+
+theorem hexLo_ne_lt : ∀ d, d < 16 → hexLo d ≠ 60 := by decide
+
+theorem jsFix_cons_raw (c : Nat) (tl : Str) (h1 : c ≠ 60) (h2 : c ≠ 92) :
+    jsFix (c :: tl) = c :: jsFix tl := by
+  rw [jsFix]; simp [h1, h2]
+
+theorem jsFix_cons_lt (tl : Str) : jsFix (60 :: tl) = kLtEsc ++ jsFix tl := by
+  rw [jsFix]; simp
+
+theorem jsFix_cons_bs (d : Nat) (rest : Str) :
+    jsFix (92 :: d :: rest) = (if d = 48 then kNulEsc else [92, d]) ++ jsFix rest := by
+  rw [jsFix]; simp
+
+/-- characters the scanner copies -/
+theorem jsFix_raw (l : Str) (h : ∀ x ∈ l, x ≠ 60 ∧ x ≠ 92) (T : Str) :
+    jsFix (l ++ T) = l ++ jsFix T := by
+  induction l with
+  | nil => rfl
+  | cons c cs ih =>
+    have hc := h c (by simp)
+    simp [jsFix_cons_raw c _ hc.1 hc.2, ih (fun x hx => h x (by simp [hx]))]
+
+theorem hexLo_ne_bs : ∀ d, d < 16 → hexLo d ≠ 92 := by decide
+
+theorem jsFix_unicodeEsc (c : Nat) (T : Str) : jsFix (unicodeEsc c ++ T) = unicodeEsc c ++ jsFix T := by
+  have hraw : ∀ x ∈ 123 :: (hexDigits6 c ++ [125]), x ≠ 60 ∧ x ≠ 92 := by
+    intro x hx
+    simp only [List.mem_cons, List.mem_append, List.not_mem_nil, or_false] at hx
+    rcases hx with hx | hx | hx
+    · omega
+    · rw [hexDigits6_eq] at hx
+      obtain ⟨d, hd, rfl⟩ := List.mem_map.mp hx
+      exact ⟨hexLo_ne_lt d (hexNums_lt c d hd), hexLo_ne_bs d (hexNums_lt c d hd)⟩
+    · omega
+  have := jsFix_raw (123 :: (hexDigits6 c ++ [125])) hraw T
+  simp only [unicodeEsc, List.cons_append, jsFix_cons_bs, show (117 : Nat) ≠ 48 by decide, if_false]
+  simp only [List.cons_append] at this
+  rw [this]
+  rfl
+
+theorem jsFix_escape (p g : Nat → Bool) (c : Nat) (T : Str) :
+    jsFix (escapeDebugChar p g c ++ T) = jsEscChar p g c ++ jsFix T := by
+  unfold escapeDebugChar jsEscChar
+  split
+  · simp [jsFix_cons_bs]
+  · split
+    · simp [jsFix_cons_bs]
+    · split
+      · simp [jsFix_cons_bs]
+      · split
+        · simp [jsFix_cons_bs]
+        · split
+          · simp [jsFix_cons_bs]
+          · split
+            · simp [jsFix_cons_bs]
+            · next h0 h9 h13 h10 h92 h34 =>
+              split
+              · exact jsFix_unicodeEsc c T
+              · split
+                · by_cases h60 : c = 60
+                  · subst h60; simp [jsFix_cons_lt]
+                  · simp [jsFix_cons_raw c T h60 h92, h60]
+                · exact jsFix_unicodeEsc c T
+
+theorem jsFix_debugBody (p g : Nat → Bool) (s T : Str) :
+    jsFix (debugBody p g s ++ T) = jsBody p g s ++ jsFix T := by
+  induction s with
+  | nil => rfl
+  | cons c cs ih =>
+    simp only [debugBody, jsBody, List.append_assoc]
+    rw [jsFix_escape, ih]
+
+/-- `js_string(s)` is `"` + the per-character output + `"` -/
+theorem jsString_eq (p g : Nat → Bool) (s : Str) : jsString p g s = 34 :: (jsBody p g s ++ [34]) := by
+  have := jsFix_debugBody p g s [34]
+  have h34 : jsFix [34] = [34] := by simp [jsFix_cons_raw, jsFix]
+  rw [jsString, rustDebugStr, jsFix_cons_raw 34 _ (by decide) (by decide), this, h34]
+
+theorem hex4_zero (T : Str) : hex4 (48 :: 48 :: 48 :: 48 :: T) = some 0 := by
+  simp [hex4, hexVal]
+
+theorem hex4_lt (T : Str) : hex4 (48 :: 48 :: 51 :: 99 :: T) = some 60 := by
+  simp [hex4, hexVal]
+
+/-- **core lemma of the repair**: no hypothesis on the string any more -/
+theorem jsStrBody_jsBody (p g : Nat → Bool) (s : Str) (hs : ∀ c ∈ s, c < 1114112) (r : Str) :
+    jsStrBody 0 (jsBody p g s ++ 34 :: r) = some (s, r) := by
+  induction s with
+  | nil => simp [jsBody, jsStrBody]
+  | cons c cs ih =>
+    have hc : c < 1114112 := hs c (by simp)
+    have ih' := ih (fun x hx => hs x (by simp [hx]))
+    have hu : ∀ T, jsStrBody 0 T = some (cs, r) →
+        jsStrBody 0 (unicodeEsc c ++ T) = some (c :: cs, r) := by
+      intro T hT
+      have hsk := jsStrBody_skip (117 :: 123 :: (hexDigits6 c ++ [125])) T
+      have hlen : (117 :: 123 :: (hexDigits6 c ++ [125])).length = (hexNums c).length + 3 := by
+        simp [hexDigits6_eq]
+      have happ : (117 :: 123 :: (hexDigits6 c ++ [125])) ++ T
+          = 117 :: 123 :: (hexDigits6 c ++ 125 :: T) := by simp
+      rw [hlen, happ] at hsk
+      have hshape : unicodeEsc c ++ T = 92 :: 117 :: 123 :: (hexDigits6 c ++ 125 :: T) := by
+        simp [unicodeEsc]
+      rw [hshape, jsStrBody_backslash, jsEscape_unicodeEsc c hc T]
+      simp only [hsk, hT, List.singleton_append]
+    have h4 : ∀ (a b c' d v : Nat) (T : Str), hex4 (a :: b :: c' :: d :: T) = some v →
+        jsStrBody 0 T = some (cs, r) →
+        jsStrBody 0 (92 :: 117 :: a :: b :: c' :: d :: T) = some (v :: cs, r) := by
+      intro a b c' d v T hh hT
+      have hsk := jsStrBody_skip [117, a, b, c', d] T
+      simp only [List.length_cons, List.length_nil, List.cons_append, List.nil_append] at hsk
+      have ha : a ≠ 123 := by
+        intro e; subst e; simp [hex4, hexVal] at hh
+      rw [jsStrBody_backslash]
+      simp only [jsEscape, show (117 : Nat) ≠ 110 ∧ (117 : Nat) ≠ 114 ∧ (117 : Nat) ≠ 116 by decide]
+      simp [ha, hh, hsk, hT]
+    simp only [jsBody, List.append_assoc]
+    generalize hT : jsBody p g cs ++ 34 :: r = T at ih'
+    unfold jsEscChar
+    split
+    · next h0 => subst h0; exact h4 48 48 48 48 0 T (hex4_zero T) ih'
+    · split
+      · next h => subst h; simp [jsStrBody, jsEscape, ih']
+      · split
+        · next h => subst h; simp [jsStrBody, jsEscape, ih']
+        · split
+          · next h => subst h; simp [jsStrBody, jsEscape, ih']
+          · split
+            · next h => subst h; simp [jsStrBody, jsEscape, isOct, ih']
+            · split
+              · next h => subst h; simp [jsStrBody, jsEscape, isOct, ih']
+              · next h0 h9 h13 h10 h92 h34 =>
+                split
+                · exact hu T ih'
+                · split
+                  · split
+                    · next h60 => subst h60; exact h4 48 48 51 99 60 T (hex4_lt T) ih'
+                    · simp [jsStrBody, h34, h10, h13, h92, ih']
+                  · exact hu T ih'
+
+/-- a `js_string` literal at the head of any input is read back whole -/
+theorem jsStrLit_jsString (p g : Nat → Bool) (s : Str) (hs : Scalar s) (r : Str) :
+    jsStrLit (jsString p g s ++ r) = some (s, r) := by
+  have h := jsStrBody_jsBody p g s (fun c hc => (hs c hc).1) r
+  simp only [jsString_eq, List.cons_append, List.append_assoc, List.singleton_append,
+    List.nil_append, jsStrLit, if_true, h, joinSurr_scalar s hs]
+
+/-- **round trip (full)**: for every payload or error-message string (any Unicode scalar values,
+including `<`, `</script>`, `<!--`, backslashes, quotes, NUL before digits, U+2028/9), at every
+emission site and for every instantiation of rustc's Unicode tables, the JavaScript engine reads the
+emitted literal back as exactly the string the server wrote -/
+theorem C12_roundtrip (p g : Nat → Bool) (site : Site) (s : Str) (hs : Scalar s) :
+    jsDecodeStringLiteral (emitLit p g site s) = some s := by
+  have h := jsStrLit_jsString p g s hs []
+  simp only [List.append_nil] at h
+  simp [jsDecodeStringLiteral, emitLit, h]
+
+/-- the three regression inputs now read back exactly -/
+theorem C12_regression_inputs_roundtrip :
+    jsDecodeStringLiteral (emitLit asciiPrintable noExtend .asyncData [0, 49]) = some [0, 49] ∧
+    jsDecodeStringLiteral (emitLit asciiPrintable noExtend .asyncData [60]) = some [60] ∧
+    jsDecodeStringLiteral (emitLit asciiPrintable noExtend .asyncError [60, 47, 115, 99, 114, 105, 112, 116, 62])
+      = some [60, 47, 115, 99, 114, 105, 112, 116, 62] ∧
+    emitLit asciiPrintable noExtend .asyncData [0, 49, 60] = [34, 92, 117, 48, 48, 48, 48, 49, 92, 117, 48, 48, 51, 99, 34] := by
+  decide
+
+example : Scalar [0, 49, 60, 47, 34, 92, 8232, 128512] := by
+  intro c hc; simp at hc; omega
 
 /-! ## B. the script text is inert -/
 
@@ -353,8 +540,6 @@ theorem noLt_of_forall_dec (l : Str) (h : l.all (· != 60) = true) : NoLt l := b
   intro x hx
   have := List.all_eq_true.mp h x hx
   simpa using this
-
-theorem hexLo_ne_lt : ∀ d, d < 16 → hexLo d ≠ 60 := by decide
 
 theorem noLt_hexDigits6 (c : Nat) : NoLt (hexDigits6 c) := by
   intro x hx
@@ -408,23 +593,37 @@ theorem noLt_decFuel (f n : Nat) : NoLt (decFuel f n) := by
 
 theorem noLt_decDigits (n : Nat) : NoLt (decDigits n) := noLt_decFuel n n
 
-/-- a data literal never contains `<`, whatever the payload and the Unicode tables -/
-theorem noLt_dataLit (p g : Nat → Bool) (site : Site) (h : siteReplacesLt site = true) (s : Str) :
-    NoLt (emitLit p g site s) := by
-  simp only [emitLit, h, if_true]
-  exact noLt_rustDebugStr p g _ (noLt_replaceLt s)
+theorem noLt_jsEscChar (p g : Nat → Bool) (c : Nat) : NoLt (jsEscChar p g c) := by
+  unfold jsEscChar
+  repeat' split
+  all_goals first
+    | exact noLt_unicodeEsc c
+    | exact noLt_of_forall_dec _ (by decide)
+    | (next h => exact noLt_cons h (fun _ h => by simp at h))
 
-theorem noLt_errLit (p g : Nat → Bool) (site : Site) (s : Str) (hs : NoLt s) :
-    NoLt (emitLit p g site s) := by
-  unfold emitLit
-  split
-  · exact noLt_rustDebugStr p g _ (noLt_replaceLt s)
-  · exact noLt_rustDebugStr p g _ hs
+theorem noLt_jsBody (p g : Nat → Bool) (s : Str) : NoLt (jsBody p g s) := by
+  induction s with
+  | nil => intro x hx; simp [jsBody] at hx
+  | cons c cs ih =>
+    simp only [jsBody]
+    exact noLt_append (noLt_jsEscChar p g c) ih
+
+/-- a literal printed by `js_string` never contains `<` — whatever the string, the site and the
+Unicode tables -/
+theorem noLt_emitLit (p g : Nat → Bool) (site : Site) (s : Str) : NoLt (emitLit p g site s) := by
+  simp only [emitLit, jsString_eq]
+  exact noLt_cons (by decide) (noLt_append (noLt_jsBody p g s) (noLt_of_forall_dec _ (by decide)))
+
+/-- before the repair: a data literal never contained `<` … -/
+theorem noLt_dataLitOld (p g : Nat → Bool) (site : Site) (h : siteReplacesLt site = true) (s : Str) :
+    NoLt (emitLitOld p g site s) := by
+  simp only [emitLitOld, h, if_true]
+  exact noLt_rustDebugStr p g _ (noLt_replaceLt s)
 
 theorem noLt_dataStmt (p g : Nat → Bool) (id : Nat) (v : Str) : NoLt (dataStmt p g id v) := by
   unfold dataStmt
   exact noLt_append (noLt_append (noLt_append (noLt_append (noLt_of_forall_dec _ (by decide))
-    (noLt_decDigits id)) (noLt_of_forall_dec _ (by decide))) (noLt_dataLit p g _ rfl v))
+    (noLt_decDigits id)) (noLt_of_forall_dec _ (by decide))) (noLt_emitLit p g _ v))
     (noLt_of_forall_dec _ (by decide))
 
 theorem noLt_dataStmts (p g : Nat → Bool) (l : List (Nat × Str)) : NoLt (dataStmts p g l) := by
@@ -435,38 +634,32 @@ theorem noLt_dataStmts (p g : Nat → Bool) (l : List (Nat × Str)) : NoLt (data
     simp only [dataStmts]
     exact noLt_append (noLt_dataStmt p g id v) ih
 
-theorem noLt_errTupleBody (p g : Nat → Bool) (site : Site) (b e : Nat) (m : Str) (hm : NoLt m) :
+theorem noLt_errTupleBody (p g : Nat → Bool) (site : Site) (b e : Nat) (m : Str) :
     NoLt (errTupleBody p g site b e m) := by
   unfold errTupleBody
   exact noLt_append (noLt_append (noLt_append (noLt_append (noLt_append (noLt_decDigits b)
     (noLt_of_forall_dec _ (by decide))) (noLt_decDigits e)) (noLt_of_forall_dec _ (by decide)))
-    (noLt_errLit p g site m hm)) (noLt_of_forall_dec _ (by decide))
+    (noLt_emitLit p g site m)) (noLt_of_forall_dec _ (by decide))
 
-/-- all messages of an error list are free of `<` -/
-def ErrsNoLt (errs : List ErrRec) : Prop := ∀ r ∈ errs, NoLt r.2.2
-
-theorem noLt_errStmts (p g : Nat → Bool) (errs : List ErrRec) (h : ErrsNoLt errs) :
+theorem noLt_errStmts (p g : Nat → Bool) (errs : List ErrRec) :
     NoLt (errStmts p g errs) := by
   induction errs with
   | nil => intro x hx; simp [errStmts] at hx
   | cons a rest ih =>
     obtain ⟨b, e, m⟩ := a
     simp only [errStmts, errPushStmt]
-    have hm : NoLt m := h (b, e, m) (by simp)
     exact noLt_append (noLt_append (noLt_append (noLt_of_forall_dec _ (by decide))
-      (noLt_errTupleBody p g _ b e m hm)) (noLt_of_forall_dec _ (by decide)))
-      (ih (fun r hr => h r (by simp [hr])))
+      (noLt_errTupleBody p g _ b e m)) (noLt_of_forall_dec _ (by decide))) ih
 
-theorem noLt_errList (p g : Nat → Bool) (errs : List ErrRec) (h : ErrsNoLt errs) :
+theorem noLt_errList (p g : Nat → Bool) (errs : List ErrRec) :
     NoLt (errList p g errs) := by
   induction errs with
   | nil => intro x hx; simp [errList] at hx
   | cons a rest ih =>
     obtain ⟨b, e, m⟩ := a
     simp only [errList, errTuple]
-    have hm : NoLt m := h (b, e, m) (by simp)
-    exact noLt_append (noLt_append (noLt_cons (by decide) (noLt_errTupleBody p g _ b e m hm))
-      (noLt_of_forall_dec _ (by decide))) (ih (fun r hr => h r (by simp [hr])))
+    exact noLt_append (noLt_append (noLt_cons (by decide) (noLt_errTupleBody p g _ b e m))
+      (noLt_of_forall_dec _ (by decide))) ih
 
 theorem noLt_numList (l : List Nat) : NoLt (numList l) := by
   induction l with
@@ -482,7 +675,7 @@ theorem noLt_syncList (p g : Nat → Bool) (l : List (Nat × Str)) : NoLt (syncL
     obtain ⟨id, v⟩ := a
     simp only [syncList, syncEntry]
     exact noLt_append (noLt_append (noLt_append (noLt_append (noLt_decDigits id)
-      (noLt_of_forall_dec _ (by decide))) (noLt_dataLit p g _ rfl v))
+      (noLt_of_forall_dec _ (by decide))) (noLt_emitLit p g _ v))
       (noLt_of_forall_dec _ (by decide))) ih
 
 /-- a text without `<` has none of the dangerous patterns … -/
@@ -520,49 +713,26 @@ def Inert (chunk : Str) : Prop := hasDanger chunk = false ∧ inertTok chunk = t
 theorem inert_of_noLt (l : Str) (h : NoLt l) : Inert l :=
   ⟨hasDanger_of_noLt l h, inertTok_of_noLt l h⟩
 
-/-- **data is inert**: a chunk that carries only resolved data contains no `<` at all — for every
-payload, every id and every instantiation of the Unicode tables — hence nothing that can end the
-script element, open a comment or a nested `<script` -/
-theorem C12_script_inert_data (p g : Nat → Bool) (ready : List (Nat × Str)) :
-    NoLt (asyncChunk p g ready []) ∧ Inert (asyncChunk p g ready []) := by
-  have h : NoLt (asyncChunk p g ready []) := by
-    simp only [asyncChunk, errStmts, List.append_nil]
-    exact noLt_dataStmts p g ready
+/-- **script inert (full)**: every chunk `AsyncDataStream` can produce — any resolved values, any
+error messages (including `</script>`, `<!--`, `<script`), any ids, every instantiation of the
+Unicode tables — contains no `<` at all; hence none of the dangerous patterns, and the HTML
+tokenizer ends the script element exactly at the `</script>` that `build_response` appends -/
+theorem C12_script_inert (p g : Nat → Bool) (ready : List (Nat × Str)) (errs : List ErrRec) :
+    NoLt (asyncChunk p g ready errs) ∧ Inert (asyncChunk p g ready errs) := by
+  have h : NoLt (asyncChunk p g ready errs) := by
+    unfold asyncChunk
+    exact noLt_append (noLt_dataStmts p g ready) (noLt_errStmts p g errs)
   exact ⟨h, inert_of_noLt _ h⟩
 
-/-- **full statement**: every chunk the stream can produce is inert -/
-def C12_script_inert_full : Prop :=
-  ∀ (p g : Nat → Bool) (ready : List (Nat × Str)) (errs : List ErrRec),
-    Inert (asyncChunk p g ready errs)
-
-/-- F-C12-2: an error whose `Display` is `</script>` is printed verbatim; the tokenizer ends
-the element inside the string literal (after 42 characters of a 46-character chunk) -/
-theorem C12_error_markup_witness :
-    let chunk := asyncChunk asciiPrintable noExtend [] [(0, 0, [60, 47, 115, 99, 114, 105, 112, 116, 62])]
-    hasDanger chunk = true ∧ tokClose (chunk ++ kScriptClose) = some 42 ∧ chunk.length = 46 := by
-  decide
-
-theorem C12_script_inert_full_false : ¬ C12_script_inert_full := by
-  intro h
-  have := (h asciiPrintable noExtend [] [(0, 0, [60, 47, 115, 99, 114, 105, 112, 116, 62])]).1
-  revert this; decide
-
-/-- **partial**: if no error message contains `<` (negation of the class `error-markup`), every
-chunk of the stream — data, errors, the initial chunk and the final one — is inert -/
-theorem C12_script_inert_partial (p g : Nat → Bool) (ready : List (Nat × Str)) (errs : List ErrRec)
-    (h : ErrsNoLt errs) : Inert (asyncChunk p g ready errs) := by
-  apply inert_of_noLt
-  unfold asyncChunk
-  exact noLt_append (noLt_dataStmts p g ready) (noLt_errStmts p g errs h)
-
-theorem C12_initial_chunk_inert_partial (p g : Nat → Bool) (sync : List (Nat × Str))
-    (errs : List ErrRec) (pend : List Nat) (h : ErrsNoLt errs) :
+/-- the first chunk (`__RESOLVED_RESOURCES=[…];__SERIALIZED_ERRORS=[…];…`) is inert as well -/
+theorem C12_initial_chunk_inert (p g : Nat → Bool) (sync : List (Nat × Str))
+    (errs : List ErrRec) (pend : List Nat) :
     Inert (initialChunk p g sync errs pend) := by
   apply inert_of_noLt
   unfold initialChunk
   refine noLt_append (noLt_append (noLt_append (noLt_append (noLt_append (noLt_append (noLt_append
     (noLt_append (noLt_append (noLt_of_forall_dec _ (by decide)) (noLt_syncList p g sync))
-    (noLt_of_forall_dec _ (by decide))) (noLt_of_forall_dec _ (by decide))) (noLt_errList p g errs h))
+    (noLt_of_forall_dec _ (by decide))) (noLt_of_forall_dec _ (by decide))) (noLt_errList p g errs))
     (noLt_of_forall_dec _ (by decide))) (noLt_of_forall_dec _ (by decide))) (noLt_numList pend))
     (noLt_of_forall_dec _ (by decide))) (noLt_of_forall_dec _ (by decide))
 
@@ -572,8 +742,46 @@ theorem C12_incomplete_chunk_inert (ids : List Nat) : Inert (incompleteChunk ids
   exact noLt_append (noLt_append (noLt_of_forall_dec _ (by decide)) (noLt_numList ids))
     (noLt_of_forall_dec _ (by decide))
 
-example : ErrsNoLt [(1, 2, [97, 34, 0, 8232])] := by
-  intro r hr; simp at hr; subst hr; intro x hx; simp at hx; omega
+/-- every chunk `Srv.poll` can return is inert, whatever the state of the server -/
+theorem C12_every_polled_chunk_inert (p g : Nat → Bool) (s : Srv) (text : Str)
+    (hsync : s.sync = []) (h : (s.poll p g).1 = .chunk text) (hph : ∀ c, s.phase ≠ .initial c) :
+    Inert text := by
+  unfold Srv.poll at h
+  cases hp : s.phase with
+  | idle => simp [hp] at h
+  | initial c => exact absurd hp (hph c)
+  | done => simp [hp] at h
+  | streaming =>
+    simp only [hp] at h
+    split at h
+    · simp only [PollResult.chunk.injEq] at h
+      exact h ▸ C12_incomplete_chunk_inert _
+    · split at h
+      · simp at h
+      · simp only [PollResult.chunk.injEq] at h
+        exact h ▸ (C12_script_inert p g _ _).2
+
+/-! ### before the repair (regression) -/
+
+/-- the full statement about the old printers -/
+def C12_old_script_inert_full : Prop :=
+  ∀ (p g : Nat → Bool) (ready : List (Nat × Str)) (errs : List ErrRec),
+    Inert (asyncChunkOld p g ready errs)
+
+/-- F-C12-2 (repaired): an error whose `Display` is `</script>` used to be printed verbatim — the
+tokenizer ended the element inside the string literal (after 42 characters of a 46-character
+chunk); now the chunk has no `<` and the element ends at the appended `</script>` -/
+theorem C12_error_markup_witness :
+    let old := asyncChunkOld asciiPrintable noExtend [] [(0, 0, [60, 47, 115, 99, 114, 105, 112, 116, 62])]
+    let new := asyncChunk asciiPrintable noExtend [] [(0, 0, [60, 47, 115, 99, 114, 105, 112, 116, 62])]
+    hasDanger old = true ∧ tokClose (old ++ kScriptClose) = some 42 ∧ old.length = 46 ∧
+    hasDanger new = false ∧ inertTok new = true := by
+  decide
+
+theorem C12_old_script_inert_full_false : ¬ C12_old_script_inert_full := by
+  intro h
+  have := (h asciiPrintable noExtend [] [(0, 0, [60, 47, 115, 99, 114, 105, 112, 116, 62])]).1
+  revert this; decide
 
 /-! ## C. id counters -/
 
